@@ -27,7 +27,10 @@ type RejectCase struct {
 
 func (c RejectCase) RandSeed() uint64 { return c.Seed }
 
-func genReject(t *rapid.T) RejectCase {
+func genReject(t *rapid.T) RejectCase { return genRejectBase(t, true) }
+
+// genRejectBase draws two key specifications differing in exactly one attribute.
+func genRejectBase(t *rapid.T, allowGalEl bool) RejectCase {
 	var c RejectCase
 	c.Params = genParams(t)
 	c.Seed = rapid.Uint64().Draw(t, "seed")
@@ -40,7 +43,7 @@ func genReject(t *rapid.T) RejectCase {
 	if len(c.Params.P) >= 1 {
 		kinds = append(kinds, "levelP")
 	}
-	if c.Proto == "gal" {
+	if c.Proto == "gal" && allowGalEl {
 		kinds = append(kinds, "galEl", "galEl")
 	}
 	c.Mismatch = kinds[rapid.IntRange(0, len(kinds)-1).Draw(t, "mismatch")]
